@@ -87,7 +87,15 @@ class C04(Prop):
             "(conjugate-linearity), contract_two_ttns and expectation_value called directly, norm(), scalar_product() with and without the centre flag for ket and bra, TTNO and "
             "tensor-product (0-3 sites, factors scaled by 10^U(-8,8)) expectation values, all of these again after canonical_form (REDUCED / FULL) incl. the single-site shortcut, and "
             "TTNO.as_matrix(); reference = dense einsum of the CURRENT tensors, tolerance RELATIVE to the natural scale of the quantity (|<phi|psi>| <= |phi||psi|, "
-            "|<psi|O|psi>| <= |psi|^2 |O|_2, largest entry of the matrix): 1e-9, and 1e-12 for the products of the `near` pairs")
+            "|<psi|O|psi>| <= |psi|^2 |O|_2, largest entry of the matrix): 1e-9, and 1e-12 for the products of the `near` pairs; "
+            "[str6-C04] `big` = LARGE instances (oracle only, float complex tensors, hence non-symmetric non-Hermitian operator tensors; ket, bra and TTNO built independently with their own "
+            "child orders, leg shuffles and bond dimensions): `bonds` = trees of 3-7 nodes (shapes random / hub below the root / star / chain / binary) whose bonds are drawn per network from "
+            "one of the ranges opwide (operator bond to the parent above the state's, state child bonds above the operator's), statewide, allwide, mixed (each bond independently 1..8), and then "
+            "one node (an inner non-root node where the tree has one) has its child bonds (state or operator, at random) raised until its ket-plus-child-blocks tensor reaches a size class 2^10..2^16 entries (capped at 2^17, other nodes at 2^13; "
+            "state, operator and bra bonds all differ in general); `nodes` = 8-9 (thorough up to 10) nodes with bonds 1-3; `degree` = a node (root or below it) with 3-6 children whose bonds are a random "
+            "arrangement of distinct values, bra bonds equal or different. Probed on each: scalar_product(bra) both ways, contract_two_ttns and expectation_value called directly, norm(), "
+            "scalar_product() with / without the centre flag, TTNO expectation value (also for the bra as state and after canonical_form at a random centre), tensor products on 0-3 sites, the "
+            "centre shortcuts after canonical_form, TTNO.as_matrix(); reference = dense einsum (optimised contraction path) of the current tensors, tolerance 1e-9 relative to the natural scale")
     clauses = [
         ("F", "for all trees and independent child orders of ket / bra / operator (wf_two / wf_three): contract_two_ttns and expectation_value succeed and return the closed "
               "network: no open axis, atoms = all atoms, every edge wire bound, glued pairs exactly (ket leg n, bra leg n) resp. (ket leg n, operator input n) and "
@@ -147,6 +155,11 @@ class C04(Prop):
               "(product 1, or tiny / huge overall), for exactly and nearly orthogonal pairs, with tolerances relative to the natural scale of each quantity: dense oracle; "
               "no model tie (the diagram theorems are independent of the tensor values)"),
         # [/str5-C04]
+        # [str6-C04]
+        ("V", "size independence: the same equalities on LARGE instances (node tensors with 2^10..2^17 entries after the child blocks are attached, single bonds up to ~200 on chain nodes, operator / state / bra "
+              "bonds unequal in every direction, 8-10 nodes, nodes with 3-6 children of pairwise different bonds): dense oracle; no model tie (the closed-network theorems "
+              "C04_contract_two_ttns_closed / C04_expectation_value_closed hold for every tree and all dimensions; the case files would only re-evaluate them on bigger literals)"),
+        # [/str6-C04]
     ]
     trusted_base = ["NumPy tensordot/transpose/reshape implement the diagram operations (validated exactly on integer tensors)",
                     "kernel contract of the semantic bridge (qr_contracts / iso_atom, premises of the O theorems): the Q factor of every recorded QR call is an isometry "
@@ -172,6 +185,14 @@ class C04(Prop):
         cases += [{"seed": rng.randrange(10 ** 9), "nnodes": rng.choice([1, 2, 2, 3, 3, 4, 4, 5, 6, 7]), "kind": "scale", "sub": sk[j % len(sk)],
                    "ints": False, "share": False} for j in range(ns)]
         # [/str5-C04]
+        # [str6-C04] large instances (oracle only; drawn AFTER everything above, which therefore stays what it was)
+        nb = ctx.scale(14, 220) * budget_scale
+        bk = ["bonds", "bonds", "bonds", "nodes", "bonds", "degree", "bonds"]
+        for j in range(nb):
+            sub = bk[j % len(bk)]
+            nn = {"bonds": rng.choice([3, 4, 4, 5, 5, 6, 7]), "nodes": rng.choice(ctx.scale([8, 8, 9], [8, 9, 9, 10])), "degree": rng.choice([4, 5, 6, 7])}[sub]
+            cases.append({"seed": rng.randrange(10 ** 9), "nnodes": nn, "kind": "big", "sub": sub, "ints": False, "share": False})
+        # [/str6-C04]
         return cases
 
     def nontrivial(self, case):
@@ -183,6 +204,8 @@ class C04(Prop):
             c[x["kind"]] += 1
             if x["kind"] == "scale":
                 c[f"scale:{x.get('sub')}"] += 1
+            if x["kind"] == "big":
+                c[f"big:{x.get('sub')}"] += 1
             c[f"nodes={x['nnodes']}"] += 1
         return dict(c)
 
@@ -199,6 +222,8 @@ class C04(Prop):
     def _run_case(self, case):
         rng = random.Random(case["seed"])
         n = case["nnodes"]
+        if case["kind"] == "big":      # [str6-C04]
+            return self._run_big(case, rng)
         parents = [None] + [rng.randrange(0, i) for i in range(1, n)]
         phys = [rng.choice([1, 2, 2, 3]) for _ in range(n)]
         bond = {i: rng.choice([1, 2, 2, 3]) for i in range(1, n)}
@@ -629,6 +654,221 @@ class C04(Prop):
         return {"kind": "scale", "info": info, "probes": probes}
     # [/str5-C04] ----------------------------------------------------------------------------------
 
+    # [str6-C04] -----------------------------------------------------------------------------------
+    # LARGE instances.  The property text quantifies over all trees and all bond dimensions; nothing in it is restricted to
+    # the small tensors the other families use.  Three sub-families, all oracle only: big bonds (a node tensor with its
+    # child blocks attached reaches 2^10..2^16 entries, the three networks having different bonds on every edge), many
+    # nodes, and high-degree nodes with pairwise different bonds.  Reference: einsum with an optimised path on the current
+    # tensors (util.dense_ttn has no path optimisation and is unusable for big bonds).
+    BIG_DIM = 1024          # largest dimension of the full vector
+
+    @staticmethod
+    def _dense_net(ttn, ids):
+        """full contraction of a tree network; open legs ordered by `ids`, several open legs of a node in node order"""
+        ttn = copy.deepcopy(ttn)
+        lab, args, out, nxt = {}, [], [], [0]
+
+        def new():
+            nxt[0] += 1
+            return nxt[0] - 1
+        for k in ids:
+            node = ttn.nodes[k]
+            t = ttn.tensors[k]
+            sub = []
+            if not node.is_root():
+                sub.append(lab.setdefault((node.parent, k), new() if (node.parent, k) not in lab else None))
+            for c in node.children:
+                sub.append(lab.setdefault((k, c), new() if (k, c) not in lab else None))
+            ol = [new() for _ in range(node.nopen_legs())]
+            sub += ol
+            out += ol
+            assert len(sub) == t.ndim
+            args += [t, sub]
+        return np.einsum(*args, out, optimize="greedy")
+
+    def _dense_op(self, ttno, ids):
+        t = self._dense_net(ttno, ids)
+        n = len(ids)
+        t = t.transpose([2 * j for j in range(n)] + [2 * j + 1 for j in range(n)])
+        d = int(np.prod(t.shape[:n]))
+        return t.reshape(d, d)
+
+    @staticmethod
+    def _big_tree(rng, n, sub):
+        if sub == "degree":
+            # a node with 3..n-1 children: the root, or the only child of the root
+            deg = rng.randrange(3, min(6, n - 1) + 1)
+            below = rng.random() < 0.5 and n - 2 >= 3
+            if below:
+                deg = min(deg, n - 2)
+                parents = [None, 0] + [1] * deg
+            else:
+                parents = [None] + [0] * deg
+            while len(parents) < n:
+                parents.append(rng.randrange(0, len(parents)))
+            return parents, (1 if below else 0)
+        shape = rng.choice(["random", "random", "hub", "hub", "star", "chain", "binary"]) if sub == "bonds" else rng.choice(["random", "random", "binary", "chain"])
+        if shape == "hub" and n >= 4:
+            parents = [None, 0] + [rng.choice([1, 1, 1, rng.randrange(0, i)]) for i in range(2, n)]
+        elif shape == "star":
+            parents = [None] + [0] * (n - 1)
+        elif shape == "chain":
+            parents = [None] + list(range(n - 1))
+        elif shape == "binary":
+            parents = [None] + [(i - 1) // 2 for i in range(1, n)]
+        else:
+            parents = [None] + [rng.randrange(0, i) for i in range(1, n)]
+        nch = [sum(1 for p in parents if p == i) for i in range(n)]
+        inner = [i for i in range(1, n) if nch[i] >= 1]
+        if inner:
+            top = max(nch[i] for i in inner)
+            focus = rng.choice([i for i in inner if nch[i] == top] * 3 + inner)
+        else:
+            focus = 0
+        return parents, focus
+
+    def _run_big(self, case, rng):
+        from pytreenet.contractions.state_state_contraction import contract_two_ttns
+        from pytreenet.contractions.state_operator_contraction import expectation_value
+        n, sub = case["nnodes"], case["sub"]
+        nprs = np.random.RandomState((case["seed"] + 17) % (2 ** 31))
+        parents, focus = self._big_tree(rng, n, sub)
+        children = {i: [j for j in range(1, n) if parents[j] == i] for i in range(n)}
+        phys = [rng.choice([2, 2, 2, 2, 3, 1]) for _ in range(n)]
+        while int(np.prod(phys)) > self.BIG_DIM:
+            j = rng.choice([i for i in range(n) if phys[i] > 1])
+            phys[j] -= 1
+        info = {"sub": sub, "parents": parents, "phys": phys, "focus": f"n{focus}"}
+        edges = range(1, n)
+        if sub == "nodes":
+            kb = {i: rng.choice([1, 2, 2, 3]) for i in edges}
+            bb = {i: rng.choice([1, 2, 3]) for i in edges}
+            ob_ = {i: rng.choice([1, 2, 2, 3]) for i in edges}
+        elif sub == "degree":
+            # pairwise different bonds at the high-degree node, in a random arrangement; elsewhere 1..4
+            kb = {i: rng.choice([1, 2, 3, 4]) for i in edges}
+            bb = {i: rng.choice([1, 2, 3, 4]) for i in edges}
+            ob_ = {i: rng.choice([1, 2, 3]) for i in edges}
+            ch = children[focus]
+            vals = rng.sample(range(2, 2 + len(ch) + 1), len(ch))
+            for c, v in zip(ch, vals):
+                kb[c] = v
+            how = rng.choice(["equal", "equal", "own", "same"])
+            info["bra_bonds"] = how
+            if how != "own":
+                e = rng.choice([2, 3])
+                for c, v in zip(ch, vals):
+                    bb[c] = e if how == "equal" else v
+            if rng.random() < 0.5:
+                for c, v in zip(ch, rng.sample(range(1, 1 + len(ch) + 1), len(ch))):
+                    ob_[c] = v
+        else:
+            flav = rng.choice(["opwide", "opwide", "statewide", "allwide", "mixed", "mixed"])
+            info["flavour"] = flav
+            R = {"opwide": ((2, 4), (4, 7), (5, 10), (2, 5)), "statewide": ((3, 8), (4, 9), (1, 3), (1, 3)),
+                 "allwide": ((3, 6), (3, 6), (3, 6), (3, 6)), "mixed": ((1, 8), (1, 8), (1, 8), (1, 8))}[flav]
+            # (state bond to the parent, state bonds to the children, operator bond to the parent, operator bonds to the children) AT the focus node;
+            # other edges: the same ranges by their role relative to their own lower node
+            kb = {i: rng.randint(*R[1]) for i in edges}
+            ob_ = {i: rng.randint(*R[3]) for i in edges}
+            if focus != 0:
+                kb[focus] = rng.randint(*R[0])
+                ob_[focus] = rng.randint(*R[2])
+            bb = {i: rng.randint(1, 6) for i in edges}
+            # size class of the ket tensor of the focus node with its child blocks attached
+            target = 2 ** rng.randrange(10, 17)
+            info["target"] = target
+            ch = children[focus]
+
+            def size(i):
+                return (kb[i] if i else 1) * phys[i] * int(np.prod([kb[c] * ob_[c] for c in children[i]] or [1]))
+            while ch and size(focus) < target:
+                c = rng.choice(ch)
+                if rng.random() < 0.5:
+                    kb[c] += 1
+                else:
+                    ob_[c] += 1
+            # keep the other nodes (and the bra-side blocks) affordable
+            for i in range(n):
+                while size(i) > (2 ** 17 if i == focus else 2 ** 13):
+                    c = max(children[i], key=lambda c_: kb[c_] * ob_[c_])
+                    if kb[c] >= ob_[c]:
+                        kb[c] -= 1
+                    else:
+                        ob_[c] -= 1
+            info["size"] = size(focus)
+        info.update({"ket_bonds": [kb[i] for i in edges], "bra_bonds_": [bb[i] for i in edges], "op_bonds": [ob_[i] for i in edges]})
+        ids = [f"n{i}" for i in range(n)]
+        dims = {f"n{i}": phys[i] for i in range(n)}
+        ket = self._build(rng, parents, [[d] for d in phys], kb, TTNS, False, case["seed"])[0].ttn
+        bra = self._build(rng, parents, [[d] for d in phys], bb, TTNS, False, case["seed"] + 1)[0].ttn
+        op = self._build(rng, parents, [[d, d] for d in phys], ob_, TTNO, False, case["seed"] + 2)[0].ttn
+        psi = self._dense_net(ket, ids).reshape(-1)
+        phi = self._dense_net(bra, ids).reshape(-1)
+        O = self._dense_op(op, ids)
+        npsi, nphi = float(np.linalg.norm(psi)), float(np.linalg.norm(phi))
+        nO = float(np.linalg.norm(O, 2))
+        if not all(np.isfinite(v) and v > 0 for v in (npsi, nphi, nO)):
+            raise RuntimeError(f"harness: degenerate reference norms {npsi} {nphi} {nO}")
+        probes = []
+        rtol = self.RTOL
+
+        def rec(q, fun, ref, scale):
+            try:
+                val = complex(fun())
+            except Exception as e:  # noqa
+                probes.append({"q": q, "error": f"{type(e).__name__}: {e}"})
+                return
+            probes.append({"q": q, "value": val, "dense": complex(ref), "scale": float(scale), "rtol": rtol})
+        ip = np.vdot(phi, psi)
+        rec("ket.scalar_product(bra)", lambda: copy.deepcopy(ket).scalar_product(copy.deepcopy(bra)), ip, npsi * nphi)
+        rec("bra.scalar_product(ket)", lambda: copy.deepcopy(bra).scalar_product(copy.deepcopy(ket)), np.conj(ip), npsi * nphi)
+        rec("contract_two_ttns(ket, bra.conjugate())", lambda: contract_two_ttns(copy.deepcopy(ket), copy.deepcopy(bra).conjugate()), ip, npsi * nphi)
+        for nm, st, nv in (("ket", ket, npsi), ("bra", bra, nphi)):
+            rec(f"{nm}.norm()", lambda: copy.deepcopy(st).norm(), nv, nv)
+            rec(f"{nm}.scalar_product()", lambda: copy.deepcopy(st).scalar_product(), nv ** 2, nv ** 2)
+        rec("ket.scalar_product(use_orthogonal_center=False)", lambda: copy.deepcopy(ket).scalar_product(use_orthogonal_center=False), npsi ** 2, npsi ** 2)
+        ev = np.vdot(psi, O @ psi)
+        rec("ket.operator_expectation_value(TTNO)", lambda: copy.deepcopy(ket).operator_expectation_value(copy.deepcopy(op)), ev, npsi ** 2 * nO)
+        rec("expectation_value(ket, TTNO)", lambda: expectation_value(copy.deepcopy(ket), copy.deepcopy(op)), ev, npsi ** 2 * nO)
+        rec("bra.operator_expectation_value(TTNO)", lambda: copy.deepcopy(bra).operator_expectation_value(copy.deepcopy(op)), np.vdot(phi, O @ phi), nphi ** 2 * nO)
+        sites = rng.sample(ids, rng.randrange(0, min(3, n) + 1))
+        mats = {s_: nprs.standard_normal((dims[s_],) * 2) + 1j * nprs.standard_normal((dims[s_],) * 2) for s_ in sites}
+        tps = npsi ** 2 * float(np.prod([np.linalg.norm(m_, 2) for m_ in mats.values()])) if mats else npsi ** 2
+        tpv = np.vdot(psi, util.dense_tp(mats, ids, dims) @ psi)
+        rec(f"ket.operator_expectation_value(TensorProduct on {sites})", lambda: copy.deepcopy(ket).operator_expectation_value(TensorProduct(dict(mats))), tpv, tps)
+        centre = rng.choice([f"n{focus}", sites[0] if sites else rng.choice(ids), rng.choice(ids)])
+        mode = rng.choice(["reduced", "reduced", "full"])
+        kc = copy.deepcopy(ket)
+        try:
+            kc.canonical_form(centre, mode=wmodel.MODES[mode])
+        except Exception as e:  # noqa
+            probes.append({"q": f"canonical_form({centre}, {mode})", "error": f"{type(e).__name__}: {e}"})
+            kc = None
+        if kc is not None:
+            tag = f"after canonical_form({centre}, {mode}): "
+            rec(tag + "norm()", lambda: kc.norm(), npsi, npsi)
+            rec(tag + "scalar_product(use_orthogonal_center=False)", lambda: kc.scalar_product(use_orthogonal_center=False), npsi ** 2, npsi ** 2)
+            rec(tag + "scalar_product(bra)", lambda: kc.scalar_product(copy.deepcopy(bra)), ip, npsi * nphi)
+            a = nprs.standard_normal((dims[centre],) * 2) + 1j * nprs.standard_normal((dims[centre],) * 2)
+            sref = np.vdot(psi, util.dense_tp({centre: a}, ids, dims) @ psi)
+            ssc = npsi ** 2 * float(np.linalg.norm(a, 2))
+            rec(tag + f"single_site_operator_expectation_value({centre})", lambda: kc.single_site_operator_expectation_value(centre, a), sref, ssc)
+            rec(tag + f"operator_expectation_value(TensorProduct on {sites})", lambda: kc.operator_expectation_value(TensorProduct(dict(mats))), tpv, tps)
+            rec(tag + "operator_expectation_value(TTNO)", lambda: kc.operator_expectation_value(copy.deepcopy(op)), ev, npsi ** 2 * nO)
+        try:
+            m, order = copy.deepcopy(op).as_matrix()
+            ref = self._dense_op(op, order)
+            top = float(np.max(np.abs(ref)))
+            dev = float(np.max(np.abs(m - ref))) if m.shape == ref.shape else float("inf")
+            probes.append({"q": f"TTNO.as_matrix() (max entrywise deviation; order {order})", "value": complex(dev), "dense": 0j, "scale": top, "rtol": rtol})
+            if list(order) != self._preorder(op):
+                probes.append({"q": "TTNO.as_matrix()", "error": f"contraction order {order} is not the pre-order {self._preorder(op)}"})
+        except Exception as e:  # noqa
+            probes.append({"q": "TTNO.as_matrix()", "error": f"{type(e).__name__}: {e}"})
+        return {"kind": "big", "info": info, "probes": probes}
+    # [/str6-C04] ----------------------------------------------------------------------------------
+
     @staticmethod
     def _preorder(ttn):
         out = []
@@ -898,6 +1138,17 @@ class C04(Prop):
                             f"(deviation {dev:.3e} > {pr['rtol']:g} * natural scale {pr['scale']:.3e})")
             return None
         # [/str5-C04]
+        # [str6-C04]
+        if k == "big":
+            for pr in ob["probes"]:
+                if "error" in pr:
+                    return f"large instance {ob['info']}: {pr['q']} raised {pr['error']}"
+                dev = abs(pr["value"] - pr["dense"])
+                if not (dev <= pr["rtol"] * pr["scale"]):
+                    return (f"large instance {ob['info']}: {pr['q']} = {pr['value']} != dense {pr['dense']} "
+                            f"(deviation {dev:.3e} > {pr['rtol']:g} * natural scale {pr['scale']:.3e})")
+            return None
+        # [/str6-C04]
         if k == "norm":
             if "norm_error" in ob:
                 return f"norm() raised {ob['norm_error']}"
